@@ -246,6 +246,8 @@ structure Stats where
   litTolerated : Nat := 0
   litOutside : Nat := 0
   sameObserved : Nat := 0
+  docObserved : Nat := 0
+  docDiffer : Nat := 0
   maxDepthSeen : Nat := 0
   nontrivial : Nat := 0
   skipWhy : List (String × Nat) := []
@@ -276,9 +278,12 @@ def step (stt : Stats) (lineNo : Nat) (line : String) : IO Stats := do
       | none => return stt
     | "P" :: id :: ast =>
       let stt := { stt with programs := stt.programs + 1 }
-      let o : Spec.Obs := { min := field obs "min", full := field obs "full", again := field obs "again", same := field obs "same" }
+      let o : Spec.Obs := { min := field obs "min", full := field obs "full", again := field obs "again", same := field obs "same",
+                             doc := field obs "doc" }
       let mut stt := stt
       if o.same != "" then stt := { stt with sameObserved := stt.sameObserved + 1 }
+      if o.doc != "" then stt := { stt with docObserved := stt.docObserved + 1 }
+      if field obs "docdiff" == "1" then stt := { stt with docDiffer := stt.docDiffer + 1 }
       -- every number/duration literal of the program as the REAL lexer evaluated it: `lits=<text>:<bits>,…`
       for tb in ((field obs "lits").splitOn ",").filter (fun w => w != "" && w != "-") do
         match tb.splitOn ":" with
@@ -301,6 +306,12 @@ def step (stt : Stats) (lineNo : Nat) (line : String) : IO Stats := do
       | some cl =>
         IO.println s!"SPECFAIL case={stt.cases} line={lineNo} id={id} clause={cl} obs={clip obs}"
         stt := { stt with specfails := stt.specfails + 1, crashes := stt.crashes + (if cl == "no_crash" then 1 else 0) }
+      | none => pure ()
+      -- the documented examples: `[ example, documented result ]` must be two equal values
+      match Spec.checkDocExample id o.min with
+      | some cl =>
+        IO.println s!"SPECFAIL case={stt.cases} line={lineNo} id={id} clause={cl} obs={clip obs}"
+        stt := { stt with specfails := stt.specfails + 1 }
       | none => pure ()
       match parse (ast.length + 1) ast with
       | some (.block prog, []) =>
@@ -366,4 +377,4 @@ def main : IO Unit := do
   let s ← C15Driver.loop stdin {} 1
   for (w, n) in s.skipWhy do
     IO.println s!"SKIPPED n={n} why={w}"
-  IO.println s!"STATS cases={s.cases} programs={s.programs} compared={s.compared} hostile={s.hostile} skipped_fuel={s.skippedFuel} skipped_unmodelled={s.skippedUnmodelled} skipped_timeout={s.skippedTimeout} values={s.values} script_errors={s.scriptErrors} stack_errors={s.stackErrors} crashes={s.crashes} hostile_syntax={s.hostileSyntax} hostile_ok={s.hostileOk} mismatches={s.mismatches} specfails={s.specfails} badlines={s.badlines} literals={s.literals} lit_model_exact={s.litModelExact} lit_tolerated={s.litTolerated} lit_outside={s.litOutside} same_observed={s.sameObserved} max_depth={s.maxDepthSeen} nontrivial={s.nontrivial}"
+  IO.println s!"STATS cases={s.cases} programs={s.programs} compared={s.compared} hostile={s.hostile} skipped_fuel={s.skippedFuel} skipped_unmodelled={s.skippedUnmodelled} skipped_timeout={s.skippedTimeout} values={s.values} script_errors={s.scriptErrors} stack_errors={s.stackErrors} crashes={s.crashes} hostile_syntax={s.hostileSyntax} hostile_ok={s.hostileOk} mismatches={s.mismatches} specfails={s.specfails} badlines={s.badlines} literals={s.literals} lit_model_exact={s.litModelExact} lit_tolerated={s.litTolerated} lit_outside={s.litOutside} same_observed={s.sameObserved} doc_observed={s.docObserved} doc_text_differs={s.docDiffer} max_depth={s.maxDepthSeen} nontrivial={s.nontrivial}"
